@@ -70,6 +70,8 @@ CLASS_OF = [
     ('possible bit shift underflow/overflow', 'shift'),
     ('precondition not satisfied', 'pre'),
     ('postcondition not satisfied', 'post'),
+    ('post-condition of closure', 'post'),
+    ('pre-condition of closure', 'pre'),
     ('invariant not satisfied at end of loop body', 'inv-end'),
     ('invariant not satisfied before loop', 'inv-init'),
     ('decreases not satisfied', 'decreases'),
